@@ -32,6 +32,10 @@ CHECKS = {
   text="Bounded exhaustive enumeration: every pattern over a 13-token grammar (length <= 3, plus the length-4 strings with an alternation and a line-crossing token) built as rg -U builds it x LF / LF+dotall / CRLF x every input over {a,b,-,\\n[,\\r]} up to a length bound x invert x context x strategy (slice, fragmented reader, file), searcher reused across inputs; reported lines, context, separators, numbering, offsets and byte count compared with a reference that iterates the regex crate over the WHOLE input and maps matches to lines.",
   note="Trusted: the regex crate's find_at as the meaning of the pattern; the grep model of C03 for context. Grouping of adjacent lines into one matched call is not constrained (flattened comparison). Known finding (open): inverted multi-line search resumes at the end of the matched line.",
   tech="bounded exhaustive enumeration of patterns x inputs x configurations against a reference model (small-scope model checking)"),
+ "C14": dict(cat="exploration", ref="DESIGN.md §4 C14",
+  text="Bounded exhaustive enumeration at two scales: library level (Searcher + Standard printer; every single-NUL placement in a 4-line file (pairs on the thorough tier) x detection quit/convert/none x roll-buffer capacities 1..6 x read sizes x slice x multi-line x context) and the real rg binary (the same files plus 130 KiB files with a NUL around the 64 KiB sniff boundary, including the straddling line as a matching / context line; implicit / explicit / stdin x default / --binary / --text x mmap / no mmap x ten output modes). Oracle: no NUL on the output unless text mode, the statement's outcome table for standard output, --text == detection disabled.",
+  note="Not judged: --null-data (detection disabled by design); which prefix of the text-mode output is printed before the cut-off (strategy dependent by design).",
+  tech="bounded exhaustive enumeration of NUL placements x strategies x buffer/read histories x CLI modes against the documented outcome table"),
  "C16": dict(cat="fault_enumeration", ref="DESIGN.md §4 C16",
   text="Exhaustive crash-point enumeration on the real searcher: for every input up to a length bound, every configuration / binary mode / matcher path / strategy, the search is re-run once per result index k with the sink answering stop and once answering error (for every event kind: begin, matched, context, context_break, binary_data), and once per read index j with the reader failing and with the reader returning Interrupted; plus -m N through the standard printer for every N. Oracle: exact prefix of the uninterrupted event list, finish exactly once after a stop and never after an error, the injected error is what the caller gets.",
   note="Trusted: the uninterrupted run of the same strategy as the reference list (C02/C03 check that list itself). Not judged: -m N in multi-line mode when two matching lines are adjacent (they are one block by design, DESIGN.md §8).",
